@@ -339,6 +339,10 @@ class XmlDateTime(NamedTuple):
         """Return self >= other."""
         return _cmp(self, other, operator.ge)
 
+    def __hash__(self) -> int:
+        """Return the hash of the timeline position, equal values hash equal."""
+        return hash(_timeline(self))
+
 
 class XmlTime(NamedTuple):
     """Concrete xs:time builtin type.
@@ -488,6 +492,10 @@ class XmlTime(NamedTuple):
     def __ge__(self, other: Any) -> bool:
         """Return self >= other."""
         return _cmp(self, other, operator.ge)
+
+    def __hash__(self) -> int:
+        """Return the hash of the timeline position, equal values hash equal."""
+        return hash(_timeline(self))
 
 
 DurationType = XmlTime | XmlDateTime
@@ -710,6 +718,10 @@ class XmlPeriod(UserString):
             return self._period == other._period
 
         return NotImplemented
+
+    def __hash__(self) -> int:
+        """Return the hash of the period units, like __eq__ compares them."""
+        return hash(self._period)
 
 
 class XmlHexBinary(bytes):
